@@ -366,7 +366,7 @@ Section SyncDoc.
     o_dry_run o = false -> NoDup (map fst (read_doc fn sdir)) ->
     sync_doc cf o fn sdir ddir = (d', Some e) -> d' = ddir.
   Proof.
-    intros o fn sdir ddir d' e Hdry Hnd H. unfold sync_doc in H. rewrite Hdry in H.
+    intros o fn sdir ddir d' e Hdry Hnd H. unfold sync_doc, doc_finish in H. rewrite Hdry in H.
     destruct (o_docsync o) as [ks| | |] eqn:Eds; try (inversion H; reflexivity);
       (destruct (py_eq (JObj (read_doc fn sdir)) (JObj (read_doc fn ddir))); [inversion H; reflexivity|]);
       match type of H with context [apply_docsync cf ?ds ?a ?b false] =>
@@ -412,7 +412,7 @@ Section SyncDoc.
     o_dry_run o = true -> NoDup (map fst (read_doc fn sdir)) ->
     fst (sync_doc cf o fn sdir ddir) = ddir.
   Proof.
-    intros o fn sdir ddir H16 Hdry Hnd. unfold sync_doc. rewrite Hdry.
+    intros o fn sdir ddir H16 Hdry Hnd. unfold sync_doc, doc_finish. rewrite Hdry.
     destruct (o_docsync o) as [ks| | |] eqn:Eds; try reflexivity;
       (destruct (py_eq (JObj (read_doc fn sdir)) (JObj (read_doc fn ddir))); [reflexivity|]);
       match goal with |- context [apply_docsync cf ?ds ?a ?b true] =>
@@ -432,7 +432,7 @@ Section SyncDoc.
   Lemma sync_doc_frame : forall o fn sdir ddir k, k <> fn -> k <> backup_name fn ->
     alookup k (fst (sync_doc cf o fn sdir ddir)) = alookup k ddir.
   Proof.
-    intros o fn sdir ddir k Hk Hb. unfold sync_doc.
+    intros o fn sdir ddir k Hk Hb. unfold sync_doc, doc_finish.
     assert (W : forall x base, alookup k (write_doc fn x base) = alookup k base)
       by (intros; unfold write_doc; apply alookup_aset_other; congruence).
     assert (A : forall (v : node) base, alookup k (base ++ [(backup_name fn, v)]) = alookup k base)
